@@ -520,6 +520,69 @@ func footerGate(c *Ctx, roots *srcRoots) {
 			r.ok("FOOTER-DECODE", key, u.Pos(f.Pos()), "every success return is dominated by the thrift decode of the footer (or returns the decode's own error)")
 		}
 	}
+	// the wrappers: a function of the footer path that gets the footer from a function judged above (or from another
+	// wrapper) succeeds only after having called it — a shortcut ("this object already has a footer") accepts whatever
+	// input it is given next, truncated or not
+	decoder := map[*ssa.Function]bool{}
+	for _, f := range fns {
+		res := f.Signature.Results()
+		if res.Len() == 2 && strings.HasSuffix(res.At(0).Type().String(), "schema.FileMetaData") && errIndex(f.Signature) == 1 {
+			decoder[f] = true
+		}
+	}
+	for changed := true; changed; {
+		changed = false
+		for _, f := range fns {
+			ei := errIndex(f.Signature)
+			if decoder[f] || ei < 0 {
+				continue
+			}
+			var calls []ssa.Instruction
+			for _, b := range f.Blocks {
+				for _, ins := range b.Instrs {
+					if call, ok := ins.(ssa.CallInstruction); ok {
+						if sc := call.Common().StaticCallee(); sc != nil && decoder[sc] {
+							calls = append(calls, ins)
+						}
+					}
+				}
+			}
+			if len(calls) == 0 {
+				continue
+			}
+			decoder[f] = true
+			changed = true
+			nDecode++
+			key := u.FnName(f) + " decode-before-success"
+			bad := ""
+			for _, b := range f.Blocks {
+				ret, ok := lastInstr(b).(*ssa.Return)
+				if !ok {
+					continue
+				}
+				e := ret.Results[ei]
+				if !isNilConst(e) {
+					if _, isPhi := e.(*ssa.Phi); !isPhi {
+						continue // an error value (the callee's own, or a wrapped one)
+					}
+				}
+				dom := false
+				for _, d := range calls {
+					if dominatesInstr(d, ret) {
+						dom = true
+					}
+				}
+				if !dom {
+					bad = u.Pos(ret.Pos())
+				}
+			}
+			if bad != "" {
+				r.bad("FOOTER-DECODE", key, bad, "the function can report success at "+bad+" without having read and decoded a footer on that path: whatever input it was given (a truncated file) is accepted")
+			} else {
+				r.ok("FOOTER-DECODE", key, u.Pos(f.Pos()), "every success return follows the call that reads and decodes the footer")
+			}
+		}
+	}
 	r.count("FOOTER-DECODE", nDecode)
 	r.floor("FOOTER-DECODE", 1, "ReadMetaData")
 	// magic
